@@ -865,6 +865,27 @@ func genC11(rng *rand.Rand, tier string) (cases []string) {
 		cases = append(cases, genSetNearEqualC11(op, 9)...)
 	}
 	cases = append(cases, genSetBigC11("C11.sss", 1100, false, "front"), genSetBigC11("C11.sss", 1030, true, "back"), genSetBigC11("C11.ms", 1100, true, "front"))
+	// rings of more than a thousand slots, pushed to exactly full, past full, cleared and refilled
+	// half way (storage that is allocated lazily or in steps must still report min(k, n))
+	bigRing := func(capacity, pushes int) string {
+		var ops []string
+		for i := 0; i < pushes; i++ {
+			ops = append(ops, fmt.Sprintf("p%d", i))
+			if i == capacity-2 || i == capacity-1 || i == capacity || i == pushes-1 {
+				ops = append(ops, "l", "u")
+			}
+		}
+		ops = append(ops, "r0", "l", "c", "l", "u")
+		for i := 0; i < capacity/2; i++ {
+			ops = append(ops, fmt.Sprintf("p%d", -i))
+		}
+		ops = append(ops, "l", "u", "v3", "r0")
+		return fmt.Sprintf("C11.ring %d %s", capacity, joinOpsC11(ops))
+	}
+	cases = append(cases, bigRing(1500, 1500), bigRing(1100, 1300))
+	if tier == "thorough" {
+		cases = append(cases, bigRing(1025, 1025), bigRing(1024, 2100), bigRing(2049, 2049), bigRing(3000, 3100), bigRing(513, 600), bigRing(257, 300))
+	}
 	if v, ok := dictInt(rng, 65, 6000); ok && dictNew() {
 		// a size just above an integer constant that is new in the source (a threshold, if it is one)
 		cases = append(cases, genSetBigC11("C11.sss", int(v)+40, false, "middle"))
